@@ -52,6 +52,20 @@ def run(ctx):
                         opairs.append([op, a if op in takes else None])
                 got = w.r("stack_effects", table=tn, pairs=pairs)
                 mo = drv.ask(["x.effect %s %d %d" % (tn, op, a) for op, a in pairs])
+                if pass_no == 0:
+                    # the same question through the std-style API object of that version
+                    sub = [j for j in range(len(pairs)) if j % 3 == 0]
+                    gstd = w.r("stack_effects", table=tn, pairs=[pairs[j] for j in sub], via_std=True)
+                    if isinstance(gstd, list):
+                        for j, g2 in zip(sub, gstd):
+                            if g2 != got[j]:
+                                op, a = pairs[j]
+                                rep.violation("std-effect:%s:%d" % (tn, op),
+                                              "make_std_api(%d.%d%s).stack_effect(%s %d) = %s, xstack_effect with that version's table gives %s"
+                                              % (v[0], v[1], ", 'pypy'" if t["is_pypy"] else "", t["opname"][op], a, g2, got[j]),
+                                              {"table": tn, "opcode": op, "opname": t["opname"][op], "arg": a, "actual": g2, "expected": got[j],
+                                               "call": "make_std_api(%r%s).stack_effect(%d, %d)" % (v, ", 'pypy'" if t["is_pypy"] else "", op, a)})
+                                break
                 want = o.r("stack_effect", pairs=opairs) if o else None
                 rep.count(len(pairs))
                 seen_bad = set()
